@@ -119,3 +119,44 @@ def droplet_rows(emulsion) -> list:
 
 def droplet_bytes(d) -> bytes:
     return type(d).__name__.encode() + b"|" + str(d.data.dtype).encode() + b"|" + d.data.tobytes()
+
+
+# --------------------------------------------------------------------------- provenance
+
+ROUTES = ("ctor", "copy", "pickle", "deepcopy", "from_data", "emulsion", "linked", "pickled-emulsion")
+
+
+def pick_route(rng, p_plain=0.5) -> str:
+    """A droplet's provenance must not matter: choose how the object under test is obtained."""
+    if rng.random() < p_plain:
+        return "ctor"
+    return str(rng.choice(ROUTES[1:]))
+
+
+def via(d, route):
+    """Return a droplet equal to `d` obtained through `route` (constructor, copy, pickle round
+    trip as in worker processes, deepcopy, from_data, member of an emulsion, ...)."""
+    import copy
+    import pickle
+
+    import droplets
+
+    if route in (None, "ctor"):
+        return d
+    if route == "copy":
+        return d.copy()
+    if route == "pickle":
+        return pickle.loads(pickle.dumps(d))
+    if route == "deepcopy":
+        return copy.deepcopy(d)
+    if route == "from_data":
+        return type(d).from_data(d.data.copy())
+    if route == "emulsion":
+        return droplets.Emulsion([d])[0]
+    if route == "linked":
+        em = droplets.Emulsion([d, d])
+        em.get_linked_data()
+        return em[1]
+    if route == "pickled-emulsion":
+        return pickle.loads(pickle.dumps(droplets.Emulsion([d])))[0]
+    raise ValueError(route)
